@@ -20,15 +20,14 @@ theorem typeSwitch_eq (doc : Option (Bool × Bool)) : typeSwitch doc = (typeGett
 
 /-- HEADLINE (key set and key names): for every struct tree, every -tagcase, every type-level
     directive, every set of promoted accessors: the generator's JSON list is exactly the property's
-    key list, in declaration order — provided no skipped field hides anything (C02's finding region) -/
-theorem C11_keys (getset : Bool) (tc : TagCase) (doc : Option (Bool × Bool)) (promG promS : List String) (t : Tree)
-    (hts : nestedSkipShadows t = false) :
+    key list, in declaration order -/
+theorem C11_keys (getset : Bool) (tc : TagCase) (doc : Option (Bool × Bool)) (promG promS : List String) (t : Tree) :
     jsonKeys getset tc (typeSwitch doc) promG promS (flatten t) = specKeys getset tc doc promG promS t := by
   unfold jsonKeys specKeys
   rw [flatten_filterMap_leaves, typeSwitch_eq]
   apply filterMap_congr_mem
   intro l hl
-  have hag := shadow_agrees t hts l hl
+  have hag := shadow_agrees t l hl
   rw [hag]
   by_cases hs : l.info.skip
   · simp [hs]
@@ -193,7 +192,6 @@ example :
     let t : Tree := .embed "Base" "Base" false false (.field { name := "Name" } (.field { name := "id" } .nil))
       (.field { name := "id", jsonTag := "user_id" }
         (.field { name := "ro", hasDoc := true, get := true } (.field { name := "Age_x" } .nil)))
-    nestedSkipShadows t = false ∧
     (jsonKeys true .camel (true, true) [] [] (flatten t)).map (fun k => (k.key, k.name, k.hasGet, k.hasSet)) =
       [("name", "Name", false, false), ("user_id", "id", true, true), ("ro", "ro", true, false), ("ageX", "Age_x", false, false)] := by
   decide
